@@ -192,6 +192,103 @@ def extract_reader():
             "reader_hex_prefix": prefixes[0], "reader_hex_suffix": suffixes[0]}
 
 
+def extract_reader_open():
+    """How TrainerFileInput opens the training file: codecs.open (lines end at
+    every code point str.splitlines splits on) or the builtin open with an
+    explicit newline argument ('\\n': lines end at LF only; '': at LF, CR, CR LF)."""
+    fn = _func(_parse("lib_trainer/trainer_file_input.py"), "__init__", "TrainerFileInput")
+    calls = []
+    for n in ast.walk(fn):
+        if isinstance(n, ast.Assign) and len(n.targets) == 1 and isinstance(n.targets[0], ast.Attribute) \
+                and n.targets[0].attr == "file" and isinstance(n.targets[0].value, ast.Name) and n.targets[0].value.id == "self":
+            calls.append(n.value)
+    if len(calls) != 1 or not isinstance(calls[0], ast.Call):
+        raise ExtractError("TrainerFileInput.__init__: expected exactly one `self.file = <call>`")
+    c = calls[0]
+    if isinstance(c.func, ast.Attribute) and c.func.attr == "open" and isinstance(c.func.value, ast.Name) \
+            and c.func.value.id in ("codecs", "io"):
+        kind = "codecs" if c.func.value.id == "codecs" else "builtin"
+    elif isinstance(c.func, ast.Name) and c.func.id == "open":
+        kind = "builtin"
+    else:
+        raise ExtractError("TrainerFileInput.__init__: unknown open call")
+    kw = {k.arg: k.value for k in c.keywords}
+    args = list(c.args)
+    if not args or not (isinstance(args[0], ast.Attribute) and args[0].attr == "filename"):
+        raise ExtractError("TrainerFileInput.__init__: first argument is not self.filename")
+    mode = args[1] if len(args) > 1 else kw.get("mode")
+    if mode is not None and not (isinstance(mode, ast.Constant) and mode.value in ("r", "rt")):
+        raise ExtractError("TrainerFileInput.__init__: mode is not 'r'")
+    if len(args) > 2:
+        raise ExtractError("TrainerFileInput.__init__: positional encoding/buffering not modelled")
+    enc, err = kw.get("encoding"), kw.get("errors")
+    if not (isinstance(enc, ast.Attribute) and enc.attr == "encoding" and isinstance(enc.value, ast.Name) and enc.value.id == "self"):
+        raise ExtractError("TrainerFileInput.__init__: encoding is not self.encoding")
+    if not (isinstance(err, ast.Constant) and err.value == "surrogateescape"):
+        raise ExtractError("TrainerFileInput.__init__: errors is not 'surrogateescape'")
+    extra = set(kw) - {"encoding", "errors", "newline", "mode"}
+    if extra:
+        raise ExtractError("TrainerFileInput.__init__: unmodelled arguments %r" % sorted(extra))
+    if kind == "codecs":
+        if "newline" in kw:
+            raise ExtractError("codecs.open has no newline argument")
+        return {"kind": "codecs", "newline": None, "glue": extract_reader_glue()}
+    nl = kw.get("newline")
+    if not (isinstance(nl, ast.Constant) and nl.value in ("\n", "")):
+        raise ExtractError("builtin open of the training file: only newline='\\n' or newline='' are modelled")
+    if extract_reader_glue() is not None:
+        raise ExtractError("builtin open together with a re-joining loop is not modelled")
+    return {"kind": "builtin", "newline": nl.value, "glue": None}
+
+
+def extract_reader_glue():
+    """A loop in read_password that re-joins what codecs readline split at a
+    code point other than the listed line ends:
+        while password and password[-1] not in '<ends>':
+            more = self.file.readline()
+            if more == '' (or: not more): break
+            password += more
+    Returns the code points of <ends>, or None when read_password has no while
+    loop besides `while True`.  Any other loop shape raises."""
+    fn = _func(_parse("lib_trainer/trainer_file_input.py"), "read_password", "TrainerFileInput")
+    loops = [n for n in ast.walk(fn) if isinstance(n, ast.While)
+             and not (isinstance(n.test, ast.Constant) and n.test.value is True)]
+    if not loops:
+        return None
+    if len(loops) != 1:
+        raise ExtractError("read_password: more than one conditional while loop")
+    w = loops[0]
+    t = w.test
+    ok = (isinstance(t, ast.BoolOp) and isinstance(t.op, ast.And) and len(t.values) == 2
+          and isinstance(t.values[0], ast.Name) and t.values[0].id == "password"
+          and isinstance(t.values[1], ast.Compare) and len(t.values[1].ops) == 1 and isinstance(t.values[1].ops[0], ast.NotIn)
+          and isinstance(t.values[1].left, ast.Subscript) and isinstance(t.values[1].left.value, ast.Name)
+          and t.values[1].left.value.id == "password"
+          and isinstance(t.values[1].left.slice, ast.UnaryOp) and isinstance(t.values[1].left.slice.op, ast.USub)
+          and isinstance(t.values[1].left.slice.operand, ast.Constant) and t.values[1].left.slice.operand.value == 1
+          and isinstance(t.values[1].comparators[0], ast.Constant) and isinstance(t.values[1].comparators[0].value, str))
+    if not ok or w.orelse or len(w.body) != 3:
+        raise ExtractError("read_password: unrecognised while loop")
+    a, b, c = w.body
+    ok = (isinstance(a, ast.Assign) and len(a.targets) == 1 and isinstance(a.targets[0], ast.Name)
+          and isinstance(a.value, ast.Call) and isinstance(a.value.func, ast.Attribute) and a.value.func.attr == "readline"
+          and not a.value.args and not a.value.keywords
+          and isinstance(a.value.func.value, ast.Attribute) and a.value.func.value.attr == "file")
+    if not ok:
+        raise ExtractError("read_password: while loop does not start with `x = self.file.readline()`")
+    var = a.targets[0].id
+    tb = b.test if isinstance(b, ast.If) else None
+    ok = (isinstance(b, ast.If) and not b.orelse and len(b.body) == 1 and isinstance(b.body[0], ast.Break)
+          and ((isinstance(tb, ast.UnaryOp) and isinstance(tb.op, ast.Not) and isinstance(tb.operand, ast.Name) and tb.operand.id == var)
+               or (isinstance(tb, ast.Compare) and len(tb.ops) == 1 and isinstance(tb.ops[0], ast.Eq) and isinstance(tb.left, ast.Name)
+                   and tb.left.id == var and isinstance(tb.comparators[0], ast.Constant) and tb.comparators[0].value == "")))
+    ok = ok and isinstance(c, ast.AugAssign) and isinstance(c.op, ast.Add) and isinstance(c.target, ast.Name) \
+        and c.target.id == "password" and isinstance(c.value, ast.Name) and c.value.id == var
+    if not ok:
+        raise ExtractError("read_password: unrecognised body of the re-joining loop")
+    return sorted(set(ord(ch) for ch in t.values[1].comparators[0].value))
+
+
 # ------------------------------------------------------------------ OmenScorer._load_omen
 
 def extract_omen_scorer():
@@ -353,6 +450,17 @@ def probe_interpreter():
     return _probe_cache
 
 
+def reader_linebreaks_of(ro, py_linebreaks):
+    """The code points at which the reader ends a line."""
+    if ro["kind"] == "codecs":
+        if ro["glue"] is None:
+            return list(py_linebreaks)
+        if not set(ro["glue"]) <= set(py_linebreaks):
+            raise ExtractError("re-joining loop ends lines at code points codecs does not split on")
+        return list(ro["glue"])
+    return [10] if ro["newline"] == "\n" else [10, 13]
+
+
 def extract():
     C = {}
     rej, rej_empty = extract_check_valid()
@@ -362,6 +470,9 @@ def extract():
     C.update(extract_omen_scorer())
     C.update(extract_writer())
     C.update(probe_interpreter())
+    ro = extract_reader_open()
+    C["reader_open_builtin"] = ro["kind"] == "builtin"
+    C["reader_linebreaks"] = reader_linebreaks_of(ro, C["py_linebreaks"])
     return C
 
 
